@@ -16,9 +16,12 @@ hazard_node_t X, Y;
 uint64_t reclaimed_x, reclaimed_y;
 static void gc(void* d, hazard_node_t* n) { if (n == &X) reclaimed_x++; else if (n == &Y) reclaimed_y++; else vm_assert(0, "C14: gc callback called for something that was never retired"); }
 
+#ifndef KSLOTS
+#define KSLOTS 2
+#endif
 void vm_init(void) {
-  ra = hazard_pointer_thread_record_create_and_push(&head, 2);
-  rb = hazard_pointer_thread_record_create_and_push(&head, 2);
+  ra = hazard_pointer_thread_record_create_and_push(&head, KSLOTS);
+  rb = hazard_pointer_thread_record_create_and_push(&head, KSLOTS);
   hazard_pointer_scan(ra);   /* allocates the scratch list */
   X.gc_function = gc; Y.gc_function = gc;
 }
@@ -47,13 +50,13 @@ void vm_thread_1(void) {       /* A retires X and scans */
   vm_progress();
 }
 void vm_thread_2(void) {       /* a third participant joins while the scan runs */
-  rc = hazard_pointer_thread_record_create_and_push(&head, 2);
+  rc = hazard_pointer_thread_record_create_and_push(&head, KSLOTS);
   vm_progress();
 }
 #endif
 void vm_final(void) {
 #if MODE == 2
   vm_assert(reclaimed_x == 0, "C14: protected node reclaimed");
-  vm_assert(ra->retire_threshold == 12 && rb->retire_threshold == 12 && rc->retire_threshold == 12, "C14: retire thresholds are 2*N*K after a registration");
+  vm_assert(ra->retire_threshold == 6 * KSLOTS && rb->retire_threshold == 6 * KSLOTS && rc->retire_threshold == 6 * KSLOTS, "C14: retire thresholds are 2*N*K after a registration");
 #endif
 }
